@@ -1262,7 +1262,9 @@ def ret(info, a = ExprInt32(0)):
         s = 32
         myesp = esp
     int_cast = tab_uintsize[s]
-    e.append(ExprAff(myesp, ExprOp('+', myesp, ExprOp('+', ExprInt(int_cast(s/8)), a))))
+    # the byte count (imm16, or the default 0) in the width of the stack pointer
+    a = ExprInt(int_cast(int(a.arg)))
+    e.append(ExprAff(myesp, ExprOp('+', myesp, ExprOp('+', ExprInt(int_cast(s//8)), a))))
     e.append(ExprAff(eip, ExprMem(myesp, size = s)))
     return e
 
@@ -1276,7 +1278,8 @@ def retf(info, a = ExprInt32(0)):
         s = 32
         myesp = esp
     int_cast = tab_uintsize[s]
-    e.append(ExprAff(myesp, ExprOp('+', myesp, ExprOp('+', ExprInt(int_cast(s/8 + 2)), a))))
+    a = ExprInt(int_cast(int(a.arg)))
+    e.append(ExprAff(myesp, ExprOp('+', myesp, ExprOp('+', ExprInt(int_cast(s//8 + 2)), a))))
     e.append(ExprAff(eip, ExprMem(myesp, size = s)))
     e.append(ExprAff(cs, ExprMem(ExprOp('+', myesp, ExprInt(int_cast(s/8))),
                                  size=16)))
